@@ -104,6 +104,19 @@ def run(rep):
     rt = vlib.run_cases(impl, timed.lines)
     rep.evaluations += len(timed.lines)
     allcases = [(cid, m, ri.get(cid)) for cid, m in cs.meta.items()] + [(cid, m, rt.get(cid)) for cid, m in timed.meta.items()]
+    # the build without the `parallel` feature has its own (sequential) collector: the same calls, the same oracle
+    try:
+        with vlib.Lock():
+            nopar = os.path.join(vlib.build_harness(parallel=False), "implrun")
+    except vlib.BuildError as ex:
+        nopar = None
+        rep.notes.append("non-parallel harness build failed: " + str(ex)[:200])
+    if nopar and os.path.exists(nopar):
+        sub = list(cs.meta.items())[: (150 if quick else 2500)]
+        rn = vlib.run_cases(nopar, [f"{cid} {m['cmd']}" for cid, m in sub])
+        rep.evaluations += len(sub)
+        allcases += [(cid, dict(m, o=m["o"] + " [non-parallel build]"), rn.get(cid)) for cid, m in sub]
+        rep.count("non-parallel-build-cases", len(sub))
     for cid, m, raw_res in allcases:
         res, recs = e2e.split_result(raw_res)
         recl = parse_recs(recs)
